@@ -57,6 +57,9 @@ var c02Site = map[string]string{
 	"hot":     "H0:{{ v }}{{ tick() }}",
 	"opt":     "[{% include 'late' ignore missing %}]{{ tick() }}",
 	"fsdoc":   "H0:{{ tick() }}",
+	"sbox":    "S[{% include 'sbinner' sandboxed %}]{{ v }}",
+	"sbinner": "{{ tick() }}{{ v|upper }}{{ tick() }}{{ p.Name }}{{ tick() }}",
+	"nosb":    "{{ v|spaceless }}{{ tick() }}{{ cycle(l, 1) }}{{ '<i>x</i>'|striptags|format }}{{ p.Greeting }}",
 	"long":    "{% set t = v ~ '!' %}{% if l|length > 2 %}{{ l|join(',') }}{% else %}no{% endif %}{{ tick() }}{{ t|upper }}{% for k, x in m %}{{ k }}={{ x }};{% endfor %}" + strings.Repeat("<p>text {{ v }}</p>", 20),
 }
 
@@ -116,9 +119,9 @@ func (propC02) Gen(seed uint64, ex map[string]bool) interface{} {
 			sc.Preload = append(sc.Preload, n)
 		}
 	}
-	renderable := []string{"a/x", "b/y", "a/sub/z", "b/w", "a/m", "b/m", "plain", "inc2", "long", "a/p", "b/p"}
+	renderable := []string{"a/x", "b/y", "a/sub/z", "b/w", "a/m", "b/m", "plain", "inc2", "long", "a/p", "b/p", "sbox", "nosb", "sbox", "nosb"}
 	if ex["relative-names"] {
-		renderable = []string{"plain", "inc2", "long", "a/p", "b/p"}
+		renderable = []string{"plain", "inc2", "long", "a/p", "b/p", "sbox", "nosb"}
 	}
 	if len(sc.Extra) > 0 {
 		renderable = append(renderable, names[len(names)-1])
@@ -320,6 +323,10 @@ func (propC02) Run(scI interface{}) *Outcome {
 	func() {
 		w.EnterPristine()
 		defer w.LeavePristine()
+		// the expectations must not warm the process-wide caches (attribute cache, string cache): the
+		// concurrent phase has to start cold, as a fresh process would
+		coldGlobals := twig.VerifSwapGlobals(nil)
+		defer twig.VerifSwapGlobals(coldGlobals)
 		for t, ops := range sc.Tasks {
 			for _, op := range ops {
 				pe := c02Engine(sc, w)
